@@ -96,6 +96,7 @@ def header_exprs(s):
 
 def check_case(case, ctx):
     rendered = harness.render_case(case)
+    dc.set_alias_map(case)
     try:
         runs = dc.run_traced(case)
     except interp.UB:
@@ -106,6 +107,15 @@ def check_case(case, ctx):
         ctx.exclude(f'interpreter-unsupported:{str(e)[:30]}')
         ctx.case(case, False, ['unsupported'])
         return
+    if dc.selfcheck_sampled(case, ctx.thorough):
+        verdict = dc.interpreter_vs_gfortran(case, rendered, runs)
+        ctx.count('selfcheck:' + (verdict if verdict in ('ok', 'native-traps', 'skipped') else 'MISMATCH'))
+        if verdict == 'native-traps':
+            ctx.exclude('original-traps-at-runtime(UB not seen by the interpreter)')
+            ctx.case(case, False, ['ub-excluded'])
+            return
+        if verdict not in ('ok', 'skipped'):
+            ctx.fail('%s:harness:reference-interpreter-disagrees-with-gfortran' % ID, case, verdict)
     try:
         sf, routine = dc.parse_kernel(rendered, case['entry']['name'])
     except Exception as e:  # noqa
@@ -117,8 +127,6 @@ def check_case(case, ctx):
     dovars = dc.do_variables(case)
     kinds = set()
     nontrivial = False
-    if case.get('excluded_by_construction', True):
-        ctx.exclude(dc.EXCLUDED_BY_CONSTRUCTION)
     try:
         with dataflow_analysis_attached(routine):
             nodes = dc.map_nodes(routine, table)
@@ -201,8 +209,13 @@ def check_case(case, ctx):
         ctx.sample({'source': rendered[0]['text'][:2500]})
 
 
+def search_case(case, ctx):
+    ctx.exclude(dc.EXCLUDED_BY_CONSTRUCTION)
+    check_case(case, ctx)
+
+
 def run_shard(ctx):
-    ctx.given(gen.cases(PROFILE), check_case, ctx.scale(1200, 20000))
+    ctx.given(dc.cases(PROFILE), search_case, ctx.scale(1200, 20000))
 
 
 def replay(case, ctx):
